@@ -2149,6 +2149,11 @@ fn strategy_bytes() -> BoxedStrategy<BytesCase> {
     .boxed()
 }
 
+/// seed corpus of the coverage-guided campaign (tools/fuzz.sh c21_content): generated content streams
+pub fn dump_corpus(dir: &std::path::Path, n: u32, seed: u64) -> std::io::Result<usize> {
+    crate::engine::dump_strategy(dir, n, seed, "C21", strategy_bytes(), |c: &BytesCase| Some(c.bytes.clone()))
+}
+
 // ───────────────────────── termination: deep inputs in an isolated worker ─────────────────────────
 
 #[derive(Clone, Debug, Serialize, Deserialize)]
@@ -2307,9 +2312,9 @@ fn run(ctx: &Ctx) {
     start_watchdog(ctx.verif_dir.clone());
     // behind known findings: keep roughly a tenth of the cases inside each affected region
     let steer = Steer { hostile: 10, icc: 3, icc_pct: 9, interleave: 2 };
-    ctx.run_sub("gfx", ctx.tier.pick(4_500, 90_000), || strategy_gfx(steer), check);
-    ctx.run_sub("text", ctx.tier.pick(3_000, 60_000), || strategy_text(steer), check);
-    ctx.run_sub("page", ctx.tier.pick(2_500, 50_000), || strategy_page(steer), check);
+    ctx.run_sub("gfx", ctx.tier.pick(13_500, 180_000), || strategy_gfx(steer), check);
+    ctx.run_sub("text", ctx.tier.pick(9_000, 120_000), || strategy_text(steer), check);
+    ctx.run_sub("page", ctx.tier.pick(7_500, 100_000), || strategy_page(steer), check);
     ctx.run_sub("bytes", ctx.tier.pick(20_000, 400_000), strategy_bytes, check_bytes);
     ctx.run_sub("deep", ctx.tier.pick(64, 640), strategy_deep, check_deep);
     stop_watchdog();
